@@ -200,26 +200,26 @@ def test_sessions():
     check("other token of the shared instance sees the row", m.step(("query", 1, "sel")), ("rows", [(0,)]))
     check("isolated token does not", m.step(("query", 2, "sel")), ("err", 2003, "42S02"))
     check("isolated put", m.step(("query", 2, "put")), ("status",))
-    check("isolated reads its own row", m.step(("query", 2, "sel")), ("rows", [(2,)]))
+    check("isolated reads its own row: a DATE, where token 0 wrote a number", m.step(("query", 2, "sel")), ("rows", [(dt.date(2002, 2, 2),)]))
     check("shared instance untouched by the isolated put", m.step(("query", 1, "sel")), ("rows", [(0,)]))
-    check("second writer replaces the table (CREATE OR REPLACE)", (m.step(("query", 1, "put")), m.step(("query", 0, "sel"))), (("status",), ("rows", [(1,)])))
+    check("second writer replaces the table (CREATE OR REPLACE)", (m.step(("query", 1, "put")), m.step(("query", 0, "sel"))), (("status",), ("rows", [("w1",)])))
     # context is per token
     check("use schema", m.step(("query", 0, "use2")), ("status",))
     check("only the sender's schema changed", [c[1] for c in m.expected_context()], ["S2", "S1", "S1"])
     check("unqualified MARK now resolves in S2: not there", m.step(("query", 0, "sel")), ("err", 2003, "42S02"))
-    check("other token still reads S1.MARK", m.step(("query", 1, "sel")), ("rows", [(1,)]))
+    check("other token still reads S1.MARK (a text, written by token 1)", m.step(("query", 1, "sel")), ("rows", [("w1",)]))
     check("put in S2", m.step(("query", 0, "put")), ("status",))
     check("marks of the shared instance", m.expected_marks(1), {"S1": 1, "S2": 0})
     check("marks of the isolated instance", m.expected_marks(2), {"S1": 2, "S2": None})
-    check("use schema back", (m.step(("query", 0, "use1")), m.step(("query", 0, "sel"))), (("status",), ("rows", [(1,)])))
+    check("use schema back", (m.step(("query", 0, "use1")), m.step(("query", 0, "sel"))), (("status",), ("rows", [("w1",)])))
     # variables are per token
     check("undefined variable: an error, errno not demanded", m.step(("query", 0, "getv")), ("err", None, None))
     check("set", m.step(("query", 0, "set")), ("status",))
-    check("own variable", m.step(("query", 0, "getv")), ("rows", [("v0",)]))
+    check("own variable: a number", m.step(("query", 0, "getv")), ("rows", [(10,)]))
     check("other token of the same instance has no such variable", m.step(("query", 1, "getv")), ("err", None, None))
     check("other token sets its own", (m.step(("query", 1, "set")), m.step(("query", 1, "getv")), m.step(("query", 0, "getv"))),
-          (("status",), ("rows", [("v1",)]), ("rows", [("v0",)])))
-    check("variables in context", [c[2] for c in m.expected_context()], [{"V": "v0"}, {"V": "v1"}, {}])
+          (("status",), ("rows", [("v1",)]), ("rows", [(10,)])))
+    check("variables in context", [c[2] for c in m.expected_context()], [{"V": 10}, {"V": "v1"}, {}])
     # unauthorized requests
     k = m.key()
     check("missing Authorization", m.step(("noauth", "missing", "put")), ("401", "390103"))
@@ -267,7 +267,14 @@ def test_headers():
     check("documented codes", (M.CODE_MISSING, M.CODE_UNKNOWN), ("390103", "390104"))
     for k, sql in M.INTRUDER_STMTS.items():
         check(f"intruder statement {k} is one that would change something", sql.split()[0].lower() in ("create", "use", "set"), True)
-    check("statement templates", M.STMTS["put"].format(i=2), "create or replace table MARK as select 2 as WHO")
+    check("put by token 0 writes a number", M.stmt_sql("put", 0), "create or replace table MARK as select 0 as WHO")
+    check("put by token 1 writes a text", M.stmt_sql("put", 1), "create or replace table MARK as select 'w1' as WHO")
+    check("put by token 2 writes a date", M.stmt_sql("put", 2), "create or replace table MARK as select '2002-02-02'::date as WHO")
+    check("set by token 2 assigns a fraction", M.stmt_sql("set", 2), "set V = 2.5")
+    check("the read texts do not depend on the token", [M.stmt_sql(s, 0) == M.stmt_sql(s, 1) == M.stmt_sql(s, 2) for s in M.READ_STMTS], [True, True])
+    check("the read texts", [M.stmt_sql(s, 1) for s in M.READ_STMTS], ["select WHO from MARK", "select $V"])
+    check("written values have three different Python types", sorted(type(v).__name__ for v in M.MARK_VALUES), ["date", "int", "str"])
+    check("variable values: NUMBER scale 0 -> int, VARCHAR -> str, NUMBER scale 1 -> Decimal", [type(v).__name__ for v in M.VAR_VALUES], ["int", "str", "Decimal"])
 
 
 def main():
